@@ -15,16 +15,70 @@ use humphrey_json::Value;
 use serde_json::{json, Value as J};
 use std::collections::HashMap;
 use std::str::FromStr;
+use std::sync::atomic::{AtomicBool, AtomicU64, Ordering};
+use std::sync::{Arc, Mutex};
 
 // ------------------------------------------------------------------------------------------------
 // calling the code under test
 // ------------------------------------------------------------------------------------------------
+// A call that does not return is a finding too (and must not become a tool time-out): every thread publishes what
+// it is about to hand to the code under test; a watchdog reports the input of a call that has not returned after
+// HANG_SECS seconds (far beyond any load effect: a call normally takes microseconds) and ends the process with code 3.
+const HANG_SECS: u64 = 120;
+fn hang_secs() -> u64 { std::env::var("VERIF_HANG_SECS").ok().and_then(|s| s.parse().ok()).unwrap_or(HANG_SECS) }
+
+struct Slot { seq: AtomicU64, busy: AtomicBool, what: Mutex<(String, String)> }
+static SLOTS: Mutex<Vec<Arc<Slot>>> = Mutex::new(Vec::new());
+thread_local! {
+    static SLOT: Arc<Slot> = {
+        let s = Arc::new(Slot { seq: AtomicU64::new(0), busy: AtomicBool::new(false), what: Mutex::new((String::new(), String::new())) });
+        SLOTS.lock().unwrap().push(s.clone());
+        s
+    };
+}
+
+fn enter(kind: &str, text: &str) {
+    SLOT.with(|s| {
+        { let mut w = s.what.lock().unwrap(); w.0.clear(); w.0.push_str(kind); w.1.clear(); w.1.push_str(text); }
+        s.seq.fetch_add(1, Ordering::SeqCst);
+        s.busy.store(true, Ordering::SeqCst);
+    });
+}
+
+fn leave() {
+    SLOT.with(|s| s.busy.store(false, Ordering::SeqCst));
+}
+
+fn start_watchdog() {
+    std::thread::spawn(|| {
+        let mut seen: Vec<(u64, u64)> = vec![];          // (seq, seconds it has been busy with that seq)
+        loop {
+            std::thread::sleep(std::time::Duration::from_secs(1));
+            let slots: Vec<Arc<Slot>> = SLOTS.lock().unwrap().clone();
+            seen.resize(slots.len(), (0, 0));
+            for (i, s) in slots.iter().enumerate() {
+                let q = s.seq.load(Ordering::SeqCst);
+                if s.busy.load(Ordering::SeqCst) && seen[i].0 == q { seen[i].1 += 1; } else { seen[i] = (q, 0); }
+                if seen[i].1 >= hang_secs() {
+                    let w = s.what.lock().unwrap().clone();
+                    out_line(&json!({"k": "hang", "call": w.0, "in": cps(&w.1), "seconds": hang_secs()}));
+                    std::process::exit(3);
+                }
+            }
+        }
+    });
+}
+
 fn call_parse(s: &str, d: Option<usize>) -> Result<Value, String> {
     let s2 = s.to_string();
-    match std::panic::catch_unwind(move || match d {
+    enter("parse", s);
+    if s == "<<self-test: hang>>" && std::env::var("VERIF_HANG_SELFTEST").is_ok() { loop { std::thread::sleep(std::time::Duration::from_secs(1)); } }
+    let r = std::panic::catch_unwind(move || match d {
         None => Value::parse(&s2),
         Some(d) => Value::parse_max_depth(&s2, d),
-    }) {
+    });
+    leave();
+    match r {
         Ok(Ok(v)) => Ok(v),
         Ok(Err(e)) => Err(format!("{}", e)),
         Err(_) => Err("panic".to_string()),
@@ -152,20 +206,7 @@ fn has_overflow(d: &J) -> bool {
     }
 }
 
-/// RFC 8259 section 4: behaviour for non-unique names is unpredictable -> the value of such a text is not compared
-fn has_dup_keys(d: &J) -> bool {
-    let kids = d["a"].as_array().map(|a| a.iter().any(has_dup_keys)).unwrap_or(false);
-    match d["t"].as_str().unwrap_or("") {
-        "obj" => {
-            let ks: Vec<Vec<u32>> = d["k"].as_array().map(|a| a.iter().map(u32s).collect()).unwrap_or_default();
-            kids || (0..ks.len()).any(|i| (0..i).any(|j| ks[i] == ks[j]))
-        }
-        "arr" => kids,
-        _ => false,
-    }
-}
-
-struct Acc { v: J, d: usize, lone: bool, dup: bool }
+struct Acc { v: J, d: usize, lone: bool }
 
 #[derive(Default)]
 struct EnumStats { strings: u64, evals: u64, accepted_seen: u64, mism: u64, first: Vec<J>, samples: Vec<J>, either: u64 }
@@ -175,7 +216,7 @@ fn check_one(toks: &[u8], s: &str, acc: &HashMap<Vec<u8>, Acc>, limit: usize, st
     let e = acc.get(toks);
     if e.is_some() { st.accepted_seen += 1; }
     let either = e.map_or(false, |a| a.lone || has_overflow(&a.v));
-    if either || e.map_or(false, |a| a.dup) { st.either += 1; }
+    if either { st.either += 1; }
     for d in [None, Some(0usize), Some(1), Some(2), Some(3)] {
         st.evals += 1;
         let lim = d.unwrap_or(limit);
@@ -185,7 +226,7 @@ fn check_one(toks: &[u8], s: &str, acc: &HashMap<Vec<u8>, Acc>, limit: usize, st
         let mut problem: Option<String> = None;
         match (&got, e) {
             (Ok(v), Some(a)) if expect_ok => {
-                if !a.lone && !a.dup {
+                if !a.lone {
                     let mut over = false;
                     if let Err(why) = same_denotation(v, &a.v, &mut over) { problem = Some(format!("value: {}", why)); }
                 }
@@ -235,8 +276,7 @@ fn do_enum(limit: usize) {
         } else if v.get("t").is_some() {
             let toks: Vec<u8> = v["t"].as_array().unwrap().iter().map(|x| x.as_u64().unwrap() as u8).collect();
             if toks.len() >= 2 { nontrivial += 1; }
-            let dup = has_dup_keys(&v["v"]);
-            acc.insert(toks, Acc { v: v["v"].clone(), d: v["d"].as_u64().unwrap() as usize, lone: v["lone"].as_bool().unwrap(), dup });
+            acc.insert(toks, Acc { v: v["v"].clone(), d: v["d"].as_u64().unwrap() as usize, lone: v["lone"].as_bool().unwrap() });
         }
     }
     if alpha.is_empty() { eprintln!("no header line"); std::process::exit(2); }
@@ -349,10 +389,44 @@ fn log_doc(s: &str, limit: usize, extra_depths: &[usize], count: &mut u64) {
         }
         pm.push(json!({"d": d, "ok": r.is_ok()}));
     }
+    // a very large limit and usize::MAX must behave alike (the counter must not wrap)
+    let big = call_parse(s, Some(1_000_000));
+    let top = call_parse(s, Some(usize::MAX));
+    match (&big, &top) {
+        (Ok(a), Ok(b)) => if !identical(a, b) { same = false; },
+        (Err(_), Err(_)) => {}
+        _ => same = false,
+    }
+    if let (Ok(v), Some(f)) = (&big, &first_ok) { if !identical(f, v) { same = false; } }
+    pm.push(json!({"d": 1_000_000, "ok": big.is_ok()}));
+    if first_ok.is_none() { first_ok = big.ok(); }
     let v = first_ok.as_ref().map(tree).unwrap_or(json!([]));
     *count += 1;
     out_line(&json!({"k": "doc", "in": cps(s), "ok": got.is_ok(), "L": limit, "pm": pm, "same": same,
                      "nx": number_crosscheck(s, &got), "v": v}));
+}
+
+/// one representative per Unicode class that Rust's char predicates, case mappings or trim treat specially
+const CLASS_CHARS: [&str; 30] = ["\u{663}", "\u{ff11}", "\u{1d7d9}", "²", "½", "Ⅷ", "\u{a0}", "\u{85}", "\u{1680}", "\u{2028}", "\u{2029}", "\u{3000}",
+    "\u{2003}", "ß", "İ", "ﬁ", "ǅ", "e\u{301}", "\u{7f}", "\u{80}", "\u{9f}", "\u{e000}", "\u{f8ff}", "\u{100000}", "\u{feff}", "\u{200b}", "\u{202e}",
+    "\u{fffd}", "\u{ad}", "\u{1f}\u{20}"];
+
+/// parse -> serialize / serialize_pretty -> parse for an accepted text: one "ser" record per indent (src = the text)
+fn roundtrip_records(doc: &str, inds: &[i64], count: &mut u64) {
+    if let Ok(v) = call_parse(doc, None) {
+        for &ind in inds {
+            let v2 = v.clone();
+            enter("serialize", doc);
+            let out = std::panic::catch_unwind(move || if ind < 0 { v2.serialize() } else { v2.serialize_pretty(ind as usize) });
+            leave();
+            let (text, re) = match out {
+                Ok(text) => { let re = matches!(call_parse(&text, Some(1000)), Ok(b) if b == v); (text, re) }
+                Err(_) => ("<panic>".to_string(), false),
+            };
+            *count += 1;
+            out_line(&json!({"k": "ser", "v": tree(&v), "ind": ind, "out": cps(&text), "re": re, "src": cps(doc)}));
+        }
+    }
 }
 
 const WS: [&str; 10] = ["", "", "", " ", "\n", "\t", "\r", "  ", " \n", "\r\n\t "];
@@ -610,6 +684,75 @@ fn do_docs(n: usize, limit: usize, maxlen: usize) {
         log_doc(&format!("{{\"a\":[{}]}}", sib.join(",")), limit, &[], &mut count);
     }
     mark("long documents", count, &mut fam);
+    // 5d. boundary values, Unicode classes, degenerate forms, repetition and scale
+    {
+        // integers around the powers of two that matter for u8 .. u64 / the f32 and f64 mantissas, exact decimal text, both signs
+        let mut lits: Vec<String> = vec![];
+        for k in [8u32, 16, 24, 31, 32, 53, 63, 64] {
+            let p: u128 = 1u128 << k;
+            for x in [p - 2, p - 1, p, p + 1, p + 2] { lits.push(format!("{}", x)); lits.push(format!("-{}", x)); lits.push(format!("{}.0", x)); lits.push(format!("{}e0", x)); }
+        }
+        for e in 15..=23 { lits.push(format!("1{}", "0".repeat(e))); lits.push(format!("-1{}", "0".repeat(e))); lits.push(format!("9{}", "9".repeat(e))); }
+        for l in ["-01", "-00.5", "00.5", "-00", "-0.5", "-0e0", "-0E+0", "-0.0e-0", "0.1e1", "-1E-0", "1e309", "-1e309", "1e-309", "179769313486231570000e288",
+                  "1.7976931348623157E+308", "-1.7976931348623157e+308", "-1.7976931348623159e308", "2.2250738585072014E-308", "5e-324", "-5e-324", "3e-324", "2e-324"] { lits.push(l.to_string()); }
+        for l in &lits {
+            log_doc(l, limit, &[], &mut count);
+            log_doc(&format!("[{},{}]", l, l), limit, &[], &mut count);
+            log_doc(&format!("{{\"a\":{}}}", l), limit, &[], &mut count);
+        }
+        // digits and numerics outside ASCII are not digits; words are lower case only; lone / doubled delimiters
+        for d in ["\u{661}\u{662}", "\u{ff11}", "\u{1d7d9}", "1²", "½", "Ⅷ", "1\u{663}", "-\u{ff11}", "1.\u{ff15}", "1e\u{ff15}", "[\u{ff11}]", "{\"a\":\u{663}}", "\u{ff0d}1", "1\u{ff0e}5",
+                  "TRUE", "False", "FALSE", "nUll", "tRUE", "[TRUE]", "{\"a\":Null}", "[true,FALSE]", "truE",
+                  "{\"a\"::1}", "{\"a\":1,,}", "[1,,]", ":", ",", "'", "=", "{:}", "{\"a\":1:}", "[:]", "{\"a\",1}", "[1:2]", "{\"a\":\n1}", "{\"a\"\n:\n1\n}", "[\n1\n,\n2\n]",
+                  "{\"a\"=1}", "{\"a\":1;\"b\":2}", "[1;2]", "\"\"\"\"", "{\"\":\"\"}", "[\"\"]", "[[]]", "[{}]", "{\"\":{}}", "{\"\":[]}", "[[],[]]", "[{},{}]", "[[],{},[]]",
+                  "{\" a \":\"  b  \",\"\\ta\\n\":\"\\u0020x\\u0020\",\"\":\" \"}"] {
+            log_doc(d, limit, &[], &mut count);
+        }
+        for c in CLASS_CHARS {
+            let raw_ok = !c.chars().any(|x| (x as u32) < 0x20);
+            if raw_ok {
+                log_doc(&format!("{{\"{c}a{c}b{c}\":\"{c}a{c}b{c}\",\" {c} \":\" {c} \"}}", c = c), limit, &[], &mut count);
+                log_doc(&format!("[\"{c}\",\"x{c}\",\"{c}x\"]", c = c), limit, &[], &mut count);
+            }
+            log_doc(&format!("[1,{}2]", c), limit, &[], &mut count);          // not white space
+            log_doc(&format!("{}[]", c), limit, &[], &mut count);
+            log_doc(&format!("{{\"a\"{}:1}}", c), limit, &[], &mut count);
+        }
+        for u in 0x7fu32..=0xa0 {                                              // DEL and every C1 control: allowed unescaped
+            let ch = char::from_u32(u).unwrap();
+            log_doc(&format!("{{\"{}k\":\"v{}\"}}", ch, ch), limit, &[], &mut count);
+        }
+        // surrogate pairs in every supplementary plane, escaped (both cases) and unescaped, in strings and keys
+        for plane in 1u32..=16 {
+            for cp in [plane * 0x10000, plane * 0x10000 + 0xffff, plane * 0x10000 + 0x3ff, plane * 0x10000 + 0x400, plane * 0x10000 + 1 + rng.below(0xfffe) as u32] {
+                let ch = char::from_u32(cp).unwrap();
+                let mut b = [0u16; 2];
+                let u = ch.encode_utf16(&mut b);
+                let lower = format!("\\u{:04x}\\u{:04x}", u[0], u[1]);
+                let upper = format!("\\u{:04X}\\u{:04X}", u[0], u[1]);
+                log_doc(&format!("{{\"{}\":\"{}{}x{}\"}}", lower, upper, ch, lower), limit, &[], &mut count);
+            }
+        }
+        // repetition and scale: many empty containers side by side (the depth counter must come back), many members,
+        // the same name several times among many others, deep siblings
+        let many = |item: &str, k: usize| -> String { vec![item; k].join(",") };
+        for (item, k) in [("[]", 300usize), ("{}", 300), ("[[]]", 260), ("{\"a\":{}}", 260), ("[{}]", 260)] {
+            log_doc(&format!("[{}]", many(item, k)), limit, &[4], &mut count);
+            log_doc(&format!("[[{}]]", many(item, k)), limit, &[4], &mut count);
+            log_doc(&format!("{{\"a\":[{}],\"b\":[{}]}}", many(item, k), many(item, 3)), limit, &[4], &mut count);
+        }
+        let mem: Vec<String> = (0..400).map(|i| format!("\"m{}\":{}", i, i)).collect();
+        log_doc(&format!("{{{}}}", mem.join(",")), limit, &[], &mut count);
+        for reps in [2usize, 3, 10] {
+            let mem: Vec<String> = (0..70).map(|i| if i % (70 / reps) == 3 { format!("\"dup\":{}", i) } else { format!("\"m{}\":[{}]", i, i) }).collect();
+            log_doc(&format!("{{{}}}", mem.join(",")), limit, &[], &mut count);
+        }
+        let a200: Vec<u8> = vec![0; 200];
+        let o200: Vec<u8> = vec![1; 200];
+        log_doc(&format!("[{},{},{}]", nest(&a200, "", ""), nest(&a200, "1", ""), nest(&o200, "{}", "")), limit, &[200, 201, 202], &mut count);
+        log_doc(&format!("{{\"x\":{},\"y\":{}}}", nest(&o200, "null", ""), nest(&a200, "[]", "")), limit, &[200, 201, 202], &mut count);
+    }
+    mark("boundary values, Unicode classes, degenerate forms, repetition", count, &mut fam);
     // 5b. number literals beyond what TLC compares exactly (> 15 digits, extremes): value checked with from_str (nx)
     let mut lits: Vec<String> = vec![
         "9007199254740993".into(), "9007199254740992.5".into(), "18446744073709551616".into(), "9223372036854775808".into(), "-9223372036854775809".into(),
@@ -665,6 +808,9 @@ fn do_docs(n: usize, limit: usize, maxlen: usize) {
         let doc = gen_doc(&mut rng, maxlen);
         log_doc(&doc, limit, &[], &mut count);
         valid_docs += 1;
+        // values built by the real parser go through the serialisers as well (parse -> serialize -> parse)
+        let ind = rng.below(9) as i64;
+        roundtrip_records(&doc, &[-1, ind], &mut count);
         // mutants of the shorter documents (all positions); longer ones every other round
         if doc.chars().count() <= 60 || i % 4 == 0 { mutants(&doc, &mut rng, 2, limit, &mut count); }
     }
@@ -758,6 +904,46 @@ fn do_ser(n: usize, per: usize, every: usize) {
         fixed.push(Value::String(st.clone()));
         fixed.push(Value::Object(vec![(st.clone(), Value::Array(vec![Value::String(st), Value::Number(-0.0)]))]));
     }
+    // supplementary planes 1..16: the first and the last 16 code points of each, as a string and as a key
+    for plane in 1u32..=16 {
+        for b in [plane * 0x10000, plane * 0x10000 + 0xfff0, plane * 0x10000 + 0x8000] {
+            let st: String = (b..b + 16).filter_map(char::from_u32).collect();
+            fixed.push(Value::Object(vec![(st.clone(), Value::String(st))]));
+        }
+    }
+    // Unicode classes at the start, in the middle and at the end of strings and keys (nothing may be trimmed, folded or escaped wrongly)
+    for c in CLASS_CHARS {
+        let st = format!("{}a{}b{}", c, c, c);
+        fixed.push(Value::Object(vec![(st.clone(), Value::String(st)), (format!(" {} ", c), Value::Null)]));
+    }
+    let nfixed_per = fixed.len();               // of these, `per` outputs are logged
+    // boundary numbers (all ten outputs logged): 0, powers of two +-1 around 2^8 .. 2^64, the f64 limits, both signs
+    let mut nums: Vec<f64> = vec![0.0, -0.0, 1.0, -1.0, 0.5, -0.5, 0.1, 1e-7, 1e15, 1e16, 1e17, 1e20, 1e21, 1e22, 1e23, 1e300, 1e308,
+        f64::MAX, f64::MIN, f64::MIN_POSITIVE, -f64::MIN_POSITIVE, 5e-324, -5e-324, 2.2250738585072009e-308, 1.7976931348623155e308, f64::EPSILON,
+        4294967295.5, 0.30000000000000004, 123456789012345680000.0, 1.0 / 3.0];
+    for k in [8u32, 16, 24, 31, 32, 53, 63, 64] {
+        let p = 2f64.powi(k as i32);
+        for x in [p - 1.0, p, p + 1.0, p * (1.0 + f64::EPSILON), p * (1.0 - f64::EPSILON / 2.0)] { nums.push(x); nums.push(-x); }
+    }
+    for chunk in nums.chunks(8) {
+        fixed.push(Value::Array(chunk.iter().map(|x| Value::Number(*x)).collect()));
+        fixed.push(Value::Object(chunk.iter().enumerate().map(|(i, x)| (format!("n{}", i), Value::Number(*x))).collect()));
+    }
+    for x in [f64::MIN, f64::MAX, -9223372036854775808.0, -9223372036854777856.0, -18446744073709551616.0, -0.0, 9007199254740993.0] { fixed.push(Value::Number(x)); }
+    // empty containers and empty strings / keys at every nesting position (all ten outputs logged)
+    let e_arr = || Value::Array(vec![]);
+    let e_obj = || Value::Object(vec![]);
+    let e_str = || Value::String(String::new());
+    fixed.extend(vec![
+        e_arr(), e_obj(), e_str(),
+        Value::Array(vec![e_arr()]), Value::Array(vec![e_obj()]), Value::Array(vec![e_arr(), e_obj(), e_str()]),
+        Value::Array(vec![Value::Array(vec![e_arr()]), Value::Array(vec![Value::Array(vec![e_obj()])])]),
+        Value::Object(vec![("".into(), e_arr())]), Value::Object(vec![("".into(), e_obj()), ("".into(), e_str())]),
+        Value::Object(vec![("a".into(), Value::Object(vec![("b".into(), Value::Object(vec![("c".into(), e_obj()), ("d".into(), e_arr())]))]))]),
+        Value::Array(vec![e_arr(), Value::Number(1.0), e_obj(), Value::Null, Value::Array(vec![e_obj(), e_obj()])]),
+        Value::Array((0..300).map(|i| if i % 2 == 0 { e_arr() } else { e_obj() }).collect()),
+        Value::Object((0..40).map(|i| (format!("k{}", i % 7), if i % 3 == 0 { e_arr() } else { Value::Number(i as f64) })).collect()),
+    ]);
     let nfixed = fixed.len();
     for vi in 0..n + nfixed {
         let dep = rng.range(0, 4);
@@ -767,9 +953,13 @@ fn do_ser(n: usize, per: usize, every: usize) {
         // which of the ten outputs are sent to TLC: always the compact one, plus `per - 1` random indents
         let mut chosen: Vec<i64> = vec![-1];
         while chosen.len() < per.min(10) { let i = rng.below(9) as i64; if !chosen.contains(&i) { chosen.push(i); } }
+        if vi >= nfixed_per && vi < nfixed { chosen = (-1..=8).collect(); }
+        let desc: String = t.to_string().chars().take(2000).collect();
         for ind in -1i64..=8 {
             let v2 = v.clone();
+            enter("serialize", &desc);
             let out = std::panic::catch_unwind(move || if ind < 0 { v2.serialize() } else { v2.serialize_pretty(ind as usize) });
+            leave();
             outputs += 1;
             let (text, re) = match out {
                 Ok(text) => {
@@ -861,11 +1051,13 @@ fn do_log(limit: usize) {
         let v: J = match serde_json::from_str(&line) { Ok(v) => v, Err(_) => continue };
         let s = from_cps(&u32s(&v["s"]));
         log_doc(&s, limit, &[], &mut count);
+        roundtrip_records(&s, &[-1, 0, 1, 2, 3, 4, 5, 6, 7, 8], &mut count);
     }
 }
 
 fn main() {
     quiet_panics();
+    start_watchdog();
     let a: Vec<String> = std::env::args().collect();
     let h = std::thread::Builder::new().stack_size(1 << 30).spawn(move || {
         match a.get(1).map(|s| s.as_str()) {
